@@ -34,8 +34,11 @@ class Skip(Expression):
                         out += Code('continue')
                     continue
 
+                # An item that matches without consuming anything has skipped
+                # nothing: trying again would never end.
                 with out.IF(STATUS):
-                    out += Code('continue')
+                    with out.IF(POS != checkpoint):
+                        out += Code('continue')
 
                 if expr.can_partially_succeed():
                     with out.ELSE():
